@@ -78,6 +78,21 @@ Definition w_nsfield : past :=
      [PDefinition (mkIdent "value" (mkSpan 1 1 1 1 2)) Const (PTImplied (mkSpan 1 1 1 1 2))
         (PInt 200 (mkSpan 1 1 1 1 2)) (mkSpan 1 1 1 1 2)]].
 
+(* the same program with the parameter called q: no binder is named like a namespace *)
+Definition w_nsfield_ok : past :=
+  [mkModule (File "/main.sy") 0
+     [PUse (i_ "b" 1) (Implicit (i_ "b" 1)) (File "/b.sy") (s_ 1);
+      PBlobDef (i_ "A" 2) [] [(i_ "value" 2, PTResolved BInt (s_ 2))] false (s_ 2);
+      PDefinition (i_ "f" 3) Const (PTImplied (s_ 3))
+        (PFunction "lambda" [(i_ "q" 3, PTUser (TARead (i_ "A" 3) (s_ 3)) [] (s_ 3))] (PTResolved BVoid (s_ 3))
+           [PStatementExpression (PGet (AAccess (ARead (i_ "q" 4) (s_ 4)) (i_ "value" 4) (s_ 4)) (s_ 4)) (s_ 4);
+            PStatementExpression (PGet (AAccess (ARead (i_ "b" 5) (s_ 5)) (i_ "value" 5) (s_ 5)) (s_ 5)) (s_ 5)]
+           false (s_ 3)) (s_ 3);
+      fn_start []];
+   mkModule (File "/b.sy") 1
+     [PDefinition (mkIdent "value" (mkSpan 1 1 1 1 2)) Const (PTImplied (mkSpan 1 1 1 1 2))
+        (PInt 200 (mkSpan 1 1 1 1 2)) (mkSpan 1 1 1 1 2)]].
+
 Definition res_eqb_ok (r r' : res resolved) : Prop :=
   match r, r' with Ok x, Ok x' => x = x' | _, _ => False end.
 
